@@ -7,18 +7,18 @@ use crate::{dprintln, AsmParser};
 #[cfg(lace_verif)]
 use crate::verif_eprintln as eprintln;
 
-pub fn eval(state: &mut RunState, line: &str) {
+pub fn eval(state: &mut RunState, orig: u16, line: &str) {
     // Required to make temporarily 'static
     // SAFETY: `line` is not used after being dropped (i.e. not returned or used in a greater
     // scope)
     let line_static = unsafe { &*(line as *const str) };
-    if let Err(err) = eval_inner(state, line_static) {
+    if let Err(err) = eval_inner(state, orig, line_static) {
         eprintln!("{:?}", err);
     }
 }
 
 /// Wrapper to group errors into one location
-fn eval_inner(state: &mut RunState, line: &'static str) -> Result<()> {
+fn eval_inner(state: &mut RunState, orig: u16, line: &'static str) -> Result<()> {
     // Parse
     let stmt = AsmParser::new_simple(line)?.parse_simple()?;
 
@@ -83,7 +83,10 @@ fn eval_inner(state: &mut RunState, line: &'static str) -> Result<()> {
     }
 
     // Check labels
-    let mut asm = AsmLine::new(0, stmt, Span::dummy());
+    // The instruction is executed with the PC where it is (not incremented past it), so label
+    // offsets must be relative to the line "before" the one the PC points at
+    let line = state.pc().wrapping_sub(orig);
+    let mut asm = AsmLine::new(line, stmt, Span::dummy());
     asm.backpatch()?;
 
     // Compile and execute
